@@ -66,6 +66,7 @@ def run(e: Engine, rep: Report):
     rep.rule('N7', 'a per-recipient result mapping built by a relay is '
              'total over envelope.recipients on every path that returns it')
     rep.tables.add('c11.N2_EXEMPT')
+    rep.tables.add('c11.DNS_DEFINITIVE_NEGATIVE')
     rep.not_decided += ['what a real peer sends', 'enumeration of downstream '
                         'scripts as executions', 'HTTP 4xx->permanent / '
                         '5xx->transient mapping (HTTP semantics, pinned by '
@@ -79,6 +80,7 @@ def run(e: Engine, rep: Report):
     n6(e, rep, K)
     n7(e, rep, 'N7')
     n4_catch_all(e, rep)
+    n4_dns(e, rep)
     rep.floor('N1', 9, 'relay implementations / set sites')
     rep.floor('N2', 12, 'client command sites')
 
@@ -117,8 +119,8 @@ def n1(e: Engine, rep: Report, K: Kinds):
                   'object>) instead of set_exception(): the failure is '
                   'returned as a success', reason='sets ' + show(kinds),
                   loc=n.loc())
-    if len(K.set_sites) < 3:
-        rep.error('anchor vanished: AsyncResult.set sites (%d < 3)'
+    if len(K.set_sites) < 2:
+        rep.error('anchor vanished: AsyncResult.set sites (%d < 2)'
                   % len(K.set_sites))
 
 
@@ -256,7 +258,16 @@ def n3(e: Engine, rep: Report, K: Kinds):
     for cq in e.concrete_classes(SMTPC):
         short = cq.rpartition('.')[2]
         ctx = e.method_ctx(cq, '_deliver')
-        g = e.build(ctx, raises=pool.make_raises(e), assert_raises=False)
+
+        def resolves_request(builder, call, target, frame):
+            # helpers of the same object that resolve the request
+            # themselves are looked into; the protocol steps are not
+            return target.recv_is_self and frame.self_same and any(
+                isinstance(x, ast.Attribute) and x.attr == 'set' and
+                isinstance(x.ctx, ast.Load)
+                for x in ast.walk(target.func.node))
+        g = e.build(ctx, inline=resolves_request,
+                    raises=pool.make_raises(e), assert_raises=False)
         where = '%s[%s]' % (ctx.func.qname, short)
         rep.functions.add(ctx.func.qname)
         sets = [n for n in g.nodes if n.kind == 'call' and
@@ -292,6 +303,51 @@ def n3(e: Engine, rep: Report, K: Kinds):
                       'both _send_envelope and _send_message_data having '
                       'completed', loc=s.loc(),
                       reason='both stages dominate the success')
+        # once the server's verdicts are in, the request is resolved before
+        # any further protocol step: a fault in such a step would replace the
+        # verdicts by one failure for the whole envelope
+        datas = [n for n in g.calls()
+                 if e.call_name(n) == '_send_message_data']
+        for s in sets:
+            for d in datas:
+                rep.evaluations += 1
+
+                def io_step(x):
+                    return x.kind == 'call' and x is not s and \
+                        isinstance(x.ast.func, ast.Attribute) and \
+                        isinstance(x.ast.func.value, ast.Name) and \
+                        x.ast.func.value.id == 'self' and \
+                        x.ast.func.attr.startswith('_')
+                pth = dataflow.find_path(
+                    g, d, lambda x: x is s,
+                    edge_ok=lambda a, l, s2: not isinstance(l, tuple))
+                hit = None
+                if pth:
+                    hit = [x for x, _ in pth[1:] if io_step(x)]
+                    if not hit:
+                        # any path, not only the shortest
+                        fwd = dataflow.reachable(
+                            g, d, lambda a, l, s2: not isinstance(l, tuple)
+                            and a is not s)
+                        hit = [x for x in g.nodes if x.id in fwd and
+                               io_step(x) and x is not d and s.id in
+                               dataflow.reachable(
+                                   g, x, lambda a, l, s2:
+                                   not isinstance(l, tuple))]
+                rep.check(not hit, 'N3', where,
+                          'the request is resolved before any further '
+                          'protocol step',
+                          'between the reply to the message data and '
+                          'result.set(...) the client runs `%s`: when that '
+                          'step fails (connection lost, timeout) the '
+                          'per-recipient verdicts already received are '
+                          'discarded and the whole envelope is reported as '
+                          'one transient failure - a recipient the server '
+                          'rejected for good is retried, an accepted one is '
+                          'reported failed' % (hit[0].text(40) if hit
+                                               else ''),
+                          loc=s.loc(), reason='no self._step() between the '
+                          'data reply and result.set')
         # entries are overwritten only where nothing was recorded / only with
         # what the server said
         fx = e.facts(g)
@@ -726,6 +782,43 @@ def _transient_by_construction(e: Engine, g, fx, n: Node, expr) -> bool:
             and path_of(s.ast.targets[0], s.frame) == p]
     return bool(defs) and all(
         _transient_by_construction(e, g, fx, d, d.ast.value) for d in defs)
+
+
+# c-ares result codes that are an authoritative "there is no such record";
+# every other code reports that the resolver could not find out
+DNS_DEFINITIVE_NEGATIVE = {'ARES_ENOTFOUND',   # NXDOMAIN
+                           'ARES_ENODATA'}     # name exists, no such record
+
+
+def n4_dns(e: Engine, rep: Report):
+    """Only an authoritative negative answer may lead the MX lookup to
+    conclude that the domain has no usable records (-> permanent failure);
+    any other resolver error must stay an error (-> transient)."""
+    c = e.p.classes.get('slimta.relay.smtp.mx.MxRecord')
+    if c is None:
+        rep.error('anchor vanished: slimta.relay.smtp.mx.MxRecord')
+        return
+    n = 0
+    for mname, m in sorted(c.methods.items()):
+        for x in walk_own(m.node):
+            if isinstance(x, (ast.Name, ast.Attribute)):
+                nm = x.id if isinstance(x, ast.Name) else x.attr
+                if not nm.startswith('ARES_E'):
+                    continue
+                n += 1
+                rep.evaluations += 1
+                rep.check(nm in DNS_DEFINITIVE_NEGATIVE, 'N4', m.qname,
+                          'resolver code %s treated as "no such record"'
+                          % nm,
+                          '%s is handled like an authoritative negative '
+                          'answer: a resolver *error* (server failure, '
+                          'refused, timeout ...) then ends in "no usable '
+                          'DNS records" = permanent failure, the mail '
+                          'bounces instead of being retried' % nm,
+                          loc=m.loc(x), reason='authoritative negative '
+                          'answer (NXDOMAIN / NODATA)')
+    if n < 2:
+        rep.error('anchor vanished: resolver codes in MxRecord (%d < 2)' % n)
 
 
 def n4_catch_all(e: Engine, rep: Report):
